@@ -46,7 +46,7 @@ func main() {
 
 func cases(tier string) int {
 	if tier == "thorough" {
-		return 50000
+		return 300000
 	}
 	return 2500
 }
